@@ -24,7 +24,7 @@ ANCHORS = ['vivarium.core.emitter:timeseries_from_data', 'vivarium.core.emitter:
            'vivarium.core.emitter:RAMEmitter.get_data', 'vivarium.core.emitter:RAMEmitter.emit',
            'vivarium.library.dict_utils:value_in_embedded_dict', 'vivarium.library.dict_utils:make_path_dict']
 ASSUMPTIONS = ['every variable exists at every emitted time and keeps one kind (plain or one unit)',
-               'dictionary-valued and None-valued variables are not generated (indistinguishable from branches / absence)']
+               'dictionary-valued variables are not generated (indistinguishable from branches); None-valued ones only in the query family (in a timeseries None cannot be told from absence)']
 
 FALSY = [0, False, '', [], 0.0]
 PLAIN = FALSY + [1, 7, -3, 2.5, -0.125, 'x', 'abc', True, [1, 2], [0], ['a', 'b'], 1e10]
@@ -79,7 +79,63 @@ def fill(sh, r):
     return out
 
 
+def gen_none(r):
+    """Histories in which some emitted values are None (what the RAM emitter keeps of nan and inf): only the
+    query views are judged (in the timeseries views None cannot be told from absence)."""
+    sh = shape(r, 1, 3)
+    lp = list(shape_leaves(sh))
+    times = [float(k) for k in range(r.randint(1, 5))]
+    rows = []
+    for _ in times:
+        row = fill(sh, r)
+        for p in lp:
+            if r.random() < 0.35:
+                node = row
+                for k in p[:-1]:
+                    node = node[k]
+                if not isinstance(node[p[-1]], dict):
+                    node[p[-1]] = None
+        rows.append(row)
+    return {'family': 'query_none', 'shape': sh, 'times': times, 'rows': rows,
+            'query': [list(p) for p in r.sample(lp, r.randint(1, len(lp)))]}
+
+
+def run_none(spec):
+    from vivarium.core.emitter import RAMEmitter
+    from vmon.util import flat
+    V = Viol()
+    plain = [p for p, k in shape_leaves(spec['shape']).items() if 'q' not in k]
+    q = [T(p) for p in spec['query'] if T(p) in plain]
+    if not q:
+        return {'viol': [], 'evals': {}, 'nontrivial': False}
+    em = RAMEmitter({})
+    for t, row in zip(spec['times'], spec['rows']):
+        row = copy.deepcopy(row)
+        for p, k in shape_leaves(spec['shape']).items():
+            if 'q' in k:            # quantities are left out of this family
+                node = row
+                for x in p[:-1]:
+                    node = node[x]
+                node.pop(p[-1], None)
+        em.emit({'table': 'history', 'data': dict(row, time=t)})
+    try:
+        qd = em.get_data(q)
+        for t, row in zip(spec['times'], spec['rows']):
+            fr = flat(row)
+            exp = {p: fr[p] for p in q}
+            got = flat(qd.get(t, {}))
+            V.check('query_raw', got == exp and all(type(got[p]) is type(exp[p]) for p in exp),
+                    lambda: ('get_data(query) row at t=%r: queried variables with their emitted values (None included)' % t,
+                             {'/'.join(p): v for p, v in exp.items()}, {'/'.join(p): v for p, v in got.items()}))
+    except Exception as e:
+        V.check('no_exception', False, ('query raised', type(e).__name__, str(e)[:200]))
+    return {'viol': list(V), 'evals': V.evals, 'nontrivial': any(v is None for row in spec['rows'] for v in flat(row).values()),
+            'classes': ['query_none'], 'summary': {'rows': len(spec['times'])}}
+
+
 def gen(r, tier, i):
+    if r.random() < 0.06:
+        return gen_none(r)
     maxd = 3 if tier == 'quick' else 4
     sh = shape(r, 1, maxd)
     n = r.randint(1, 7)
@@ -141,6 +197,8 @@ def dig(d, path):
 
 
 def run(spec):
+    if spec.get('family') == 'query_none':
+        return run_none(spec)
     import vivarium  # noqa
     from vivarium.core.emitter import (RAMEmitter, timeseries_from_data, path_timeseries_from_data,
                                        path_timeseries_from_embedded_timeseries)
